@@ -1,0 +1,429 @@
+//! Verification facade, compiled only with `--cfg n2_verif`.
+//!
+//! Gives an external harness access to crate-private functions through plain data types,
+//! lets it replace the process runner by a scripted executor, and collects a trace of the
+//! scheduler's transitions.  Nothing here changes behaviour when the cfg flag is off (the
+//! whole module is absent), and with the flag on nothing changes unless an executor /
+//! trace sink / progress sink has been installed.
+
+use crate::graph::{Build, BuildId};
+use crate::process::Termination;
+use crate::progress::Progress;
+use crate::task::{FinishedTask, TaskResult};
+use crate::work::StateCounts;
+use std::cell::RefCell;
+use std::path::PathBuf;
+
+// ------------------------------------------------------------------------------------------
+// trace
+
+thread_local! {
+    static TRACE: RefCell<Option<Vec<String>>> = RefCell::new(None);
+    static EXECUTOR: RefCell<Option<Box<dyn Executor>>> = RefCell::new(None);
+    static PROGRESS: RefCell<Option<Box<dyn Progress>>> = RefCell::new(None);
+}
+
+/// Start collecting trace events on this thread.
+pub fn trace_begin() {
+    TRACE.with(|t| *t.borrow_mut() = Some(Vec::new()));
+}
+
+/// Stop collecting and return the events.
+pub fn trace_end() -> Vec<String> {
+    TRACE.with(|t| t.borrow_mut().take().unwrap_or_default())
+}
+
+pub(crate) fn trace(f: impl FnOnce() -> String) {
+    TRACE.with(|t| {
+        if let Some(v) = t.borrow_mut().as_mut() {
+            v.push(f());
+        }
+    });
+}
+
+/// Append a harness-side event to the trace (so that ordering is shared).
+pub fn trace_push(s: String) {
+    trace(|| s);
+}
+
+// ------------------------------------------------------------------------------------------
+// scripted executor
+
+/// What the harness needs to know about a started command.
+pub struct StartInfo {
+    pub id: usize,
+    pub cmdline: String,
+    pub depfile: Option<String>,
+    pub parse_showincludes: bool,
+    pub rspfile: Option<(PathBuf, String)>,
+    pub outs: Vec<usize>,
+    pub pool: Option<String>,
+}
+
+/// Result chosen by the script for a finished command.
+pub struct FinishInfo {
+    pub id: usize,
+    /// 0 = success, 1 = failure, 2 = interrupted
+    pub termination: u8,
+    pub output: Vec<u8>,
+    pub discovered_deps: Option<Vec<String>>,
+}
+
+pub trait Executor {
+    fn start(&mut self, info: StartInfo);
+    /// Decide which running command finishes next.
+    fn wait(&mut self) -> FinishInfo;
+}
+
+pub fn set_executor(e: Option<Box<dyn Executor>>) {
+    EXECUTOR.with(|x| *x.borrow_mut() = e);
+}
+
+pub(crate) fn executor_start(id: BuildId, build: &Build) -> bool {
+    EXECUTOR.with(|x| {
+        let mut x = x.borrow_mut();
+        let Some(e) = x.as_mut() else {
+            return false;
+        };
+        let idx = crate::densemap::Index::index(&id);
+        trace(|| format!("start {}", idx));
+        e.start(StartInfo {
+            id: idx,
+            cmdline: build.cmdline.clone().unwrap(),
+            depfile: build.depfile.clone(),
+            parse_showincludes: build.parse_showincludes,
+            rspfile: build
+                .rspfile
+                .as_ref()
+                .map(|r| (r.path.clone(), r.content.clone())),
+            outs: build
+                .outs()
+                .iter()
+                .map(|f| crate::densemap::Index::index(f))
+                .collect(),
+            pool: build.pool.clone(),
+        });
+        true
+    })
+}
+
+pub(crate) fn executor_wait() -> Option<FinishedTask> {
+    EXECUTOR.with(|x| {
+        let mut x = x.borrow_mut();
+        let e = x.as_mut()?;
+        let f = e.wait();
+        trace(|| format!("finish {} {}", f.id, f.termination));
+        let now = std::time::Instant::now();
+        Some(FinishedTask {
+            tid: 0,
+            buildid: BuildId::from(f.id),
+            span: (now, now),
+            result: TaskResult {
+                termination: match f.termination {
+                    0 => Termination::Success,
+                    2 => Termination::Interrupted,
+                    _ => Termination::Failure,
+                },
+                output: f.output,
+                discovered_deps: f.discovered_deps,
+            },
+        })
+    })
+}
+
+// ------------------------------------------------------------------------------------------
+// progress sink
+
+/// Progress notifications as plain data.
+pub trait ProgressSink {
+    /// counts in the order want, ready, queued, running, done, failed
+    fn update(&self, counts: [usize; 6]);
+    fn task_started(&self, id: usize);
+    fn task_finished(&self, id: usize, termination: u8, output: &[u8]);
+    fn log(&self, msg: &str);
+}
+
+struct SinkProgress(Box<dyn ProgressSink>);
+
+fn counts_array(c: &StateCounts) -> [usize; 6] {
+    use crate::work::BuildState::*;
+    [
+        c.get(Want),
+        c.get(Ready),
+        c.get(Queued),
+        c.get(Running),
+        c.get(Done),
+        c.get(Failed),
+    ]
+}
+
+impl Progress for SinkProgress {
+    fn update(&self, counts: &StateCounts) {
+        let c = counts_array(counts);
+        trace(|| format!("update {} {} {} {} {} {}", c[0], c[1], c[2], c[3], c[4], c[5]));
+        self.0.update(c);
+    }
+    fn task_started(&self, id: BuildId, _build: &Build) {
+        self.0.task_started(crate::densemap::Index::index(&id));
+    }
+    fn task_output(&self, _id: BuildId, _line: Vec<u8>) {}
+    fn task_finished(&self, id: BuildId, _build: &Build, result: &TaskResult) {
+        let t = match result.termination {
+            Termination::Success => 0,
+            Termination::Failure => 1,
+            Termination::Interrupted => 2,
+        };
+        self.0
+            .task_finished(crate::densemap::Index::index(&id), t, &result.output);
+    }
+    fn log(&self, msg: &str) {
+        self.0.log(msg);
+    }
+}
+
+pub fn set_progress(p: Option<Box<dyn ProgressSink>>) {
+    PROGRESS.with(|x| *x.borrow_mut() = p.map(|p| Box::new(SinkProgress(p)) as Box<dyn Progress>));
+}
+
+pub(crate) fn take_progress() -> Option<Box<dyn Progress>> {
+    PROGRESS.with(|x| x.borrow_mut().take())
+}
+
+// ------------------------------------------------------------------------------------------
+// whole-invocation entry
+
+/// `run::build` with explicit arguments: returns Ok(Some(tasks)) on success, Ok(None) when a
+/// command failed or was interrupted, Err(message) for what main prints as `n2: error:`.
+pub fn run_build(
+    build_filename: Option<String>,
+    targets: Vec<String>,
+    parallelism: usize,
+    failures_left: Option<usize>,
+    explain: bool,
+    adopt: bool,
+) -> Result<Option<usize>, String> {
+    let options = crate::work::Options {
+        failures_left,
+        parallelism,
+        explain,
+        adopt,
+    };
+    crate::run::verif_build(build_filename, targets, options, false).map_err(|e| e.to_string())
+}
+
+// ------------------------------------------------------------------------------------------
+// pure helpers
+
+/// depfile::parse on `bytes` (a NUL is appended here, as read_file_with_nul does).
+pub fn depfile_parse(mut bytes: Vec<u8>) -> Result<Vec<(Vec<u8>, Vec<Vec<u8>>)>, String> {
+    bytes.push(0);
+    let mut scanner = crate::scanner::Scanner::new(&bytes);
+    match crate::depfile::parse(&mut scanner) {
+        Ok(m) => Ok(m
+            .iter()
+            .map(|(k, v)| {
+                (
+                    k.as_bytes().to_vec(),
+                    v.iter().map(|s| s.as_bytes().to_vec()).collect(),
+                )
+            })
+            .collect()),
+        Err(err) => Err(scanner.format_parse_error(std::path::Path::new("d"), err)),
+    }
+}
+
+pub fn read_depfile(path: &std::path::Path) -> Result<Vec<String>, String> {
+    crate::task::verif_hooks::read_depfile(path).map_err(|e| e.to_string())
+}
+
+pub fn extract_showincludes(output: Vec<u8>) -> (Vec<Vec<u8>>, Vec<u8>) {
+    let (a, b) = crate::task::verif_hooks::extract_showincludes(output);
+    (a.into_iter().map(|s| s.into_bytes()).collect(), b)
+}
+
+pub fn find_last_line(buf: &[u8]) -> &[u8] {
+    crate::task::verif_hooks::find_last_line(buf)
+}
+
+pub fn task_message(message: &str, seconds: usize, max_cols: usize) -> String {
+    crate::progress_fancy::verif_hooks::task_message(message, seconds, max_cols)
+}
+
+pub fn truncate(s: &str, max: usize) -> &str {
+    crate::progress_fancy::verif_hooks::truncate(s, max)
+}
+
+/// counts in the order want, ready, queued, running, done, failed
+pub fn progress_bar(counts: [usize; 6], bar_size: usize) -> String {
+    use crate::work::BuildState::*;
+    let mut c = StateCounts::default();
+    for (i, st) in [Want, Ready, Queued, Running, Done, Failed].into_iter().enumerate() {
+        c.add(st, counts[i] as isize);
+    }
+    crate::progress_fancy::verif_hooks::progress_bar(&c, bar_size)
+}
+
+pub fn remove_duplicates(ids: Vec<usize>, explicit: usize) -> (Vec<usize>, usize) {
+    let mut outs = crate::graph::BuildOuts {
+        ids: ids.into_iter().map(crate::graph::FileId::from).collect(),
+        explicit,
+    };
+    outs.remove_duplicates();
+    (
+        outs.ids
+            .iter()
+            .map(|f| crate::densemap::Index::index(f))
+            .collect(),
+        outs.explicit,
+    )
+}
+
+// ------------------------------------------------------------------------------------------
+// loader / log session
+
+/// A loaded manifest (and optionally the build log), inspectable as plain data.
+pub struct Session {
+    loader: crate::load::Loader,
+    hashes: crate::graph::Hashes,
+    db: Option<crate::db::Writer>,
+}
+
+pub struct BuildDump {
+    pub location: String,
+    pub ins: Vec<String>,
+    pub explicit_ins: usize,
+    pub implicit_ins: usize,
+    pub order_only_ins: usize,
+    pub outs: Vec<String>,
+    pub explicit_outs: usize,
+    pub cmdline: Option<String>,
+    pub desc: Option<String>,
+    pub depfile: Option<String>,
+    pub parse_showincludes: bool,
+    pub rspfile: Option<(String, String)>,
+    pub pool: Option<String>,
+    pub hide_success: bool,
+    pub hide_progress: bool,
+    pub discovered_ins: Vec<String>,
+    pub last_hash: Option<u64>,
+}
+
+pub struct FileDump {
+    pub name: String,
+    pub input: Option<usize>,
+    pub dependents: Vec<usize>,
+}
+
+impl Session {
+    /// Parse `text` (no trailing NUL) as the manifest `name`; includes are read from disk.
+    pub fn load_text(name: &str, mut text: Vec<u8>) -> Result<Session, String> {
+        text.push(0);
+        let mut loader = crate::load::Loader::new();
+        let mut parser = crate::parse::Parser::new(&text);
+        loader
+            .parse_with_parser(&mut parser, PathBuf::from(name), &[])
+            .map_err(|e| e.to_string())?;
+        Ok(Session {
+            loader,
+            hashes: crate::graph::Hashes::default(),
+            db: None,
+        })
+    }
+
+    /// db::open on `path` against the loaded graph.
+    pub fn open_db(&mut self, path: &std::path::Path) -> Result<(), String> {
+        let w = crate::db::open(path, &mut self.loader.graph, &mut self.hashes)
+            .map_err(|e| e.to_string())?;
+        self.db = Some(w);
+        Ok(())
+    }
+
+    pub fn close_db(&mut self) {
+        self.db = None;
+    }
+
+    /// Set the discovered inputs of build `b` (names are used as given, assumed canonical)
+    /// and write its record with `hash`.
+    pub fn write_build(&mut self, b: usize, deps: Vec<String>, hash: u64) -> Result<(), String> {
+        let ids: Vec<_> = deps
+            .into_iter()
+            .map(|d| self.loader.graph.files.id_from_canonical(d))
+            .collect();
+        let bid = BuildId::from(b);
+        self.loader.graph.builds[bid].set_discovered_ins(ids);
+        self.db
+            .as_mut()
+            .ok_or("db not open")?
+            .write_build(&self.loader.graph, bid, crate::hash::BuildHash(hash))
+            .map_err(|e| e.to_string())
+    }
+
+    pub fn builds(&self) -> Vec<BuildDump> {
+        let g = &self.loader.graph;
+        let name = |f: &crate::graph::FileId| g.file(*f).name.clone();
+        let n = crate::densemap::Index::index(&g.builds.next_id());
+        (0..n)
+            .map(|i| {
+                let bid = BuildId::from(i);
+                let b = &g.builds[bid];
+                BuildDump {
+                    location: format!("{}", b.location),
+                    ins: b.ins.ids.iter().map(name).collect(),
+                    explicit_ins: b.ins.explicit,
+                    implicit_ins: b.ins.implicit,
+                    order_only_ins: b.ins.order_only,
+                    outs: b.outs.ids.iter().map(name).collect(),
+                    explicit_outs: b.outs.explicit,
+                    cmdline: b.cmdline.clone(),
+                    desc: b.desc.clone(),
+                    depfile: b.depfile.clone(),
+                    parse_showincludes: b.parse_showincludes,
+                    rspfile: b
+                        .rspfile
+                        .as_ref()
+                        .map(|r| (r.path.to_string_lossy().into_owned(), r.content.clone())),
+                    pool: b.pool.clone(),
+                    hide_success: b.hide_success,
+                    hide_progress: b.hide_progress,
+                    discovered_ins: b.discovered_ins().iter().map(name).collect(),
+                    last_hash: self.hashes.get(bid).map(|h| h.0),
+                }
+            })
+            .collect()
+    }
+
+    pub fn files(&self) -> Vec<FileDump> {
+        let g = &self.loader.graph;
+        g.files
+            .all_ids()
+            .map(|id| {
+                let f = g.file(id);
+                FileDump {
+                    name: f.name.clone(),
+                    input: f.input.map(|b| crate::densemap::Index::index(&b)),
+                    dependents: f
+                        .dependents
+                        .iter()
+                        .map(|b| crate::densemap::Index::index(b))
+                        .collect(),
+                }
+            })
+            .collect()
+    }
+
+    pub fn defaults(&self) -> Vec<String> {
+        self.loader
+            .verif_defaults()
+            .iter()
+            .map(|f| self.loader.graph.file(*f).name.clone())
+            .collect()
+    }
+
+    pub fn pools(&self) -> Vec<(String, usize)> {
+        self.loader.verif_pools()
+    }
+
+    pub fn builddir(&self) -> Option<String> {
+        self.loader.verif_builddir()
+    }
+}
